@@ -392,7 +392,9 @@ def _contains(a, pre):
 def _try(fn, *a, **kw):
     try:
         return enc(fn(*a, **kw))
-    except Exception as e:  # noqa: BLE001
+    except (KeyboardInterrupt, SystemExit):
+        raise
+    except BaseException as e:  # noqa: BLE001
         return enc(e)
 
 
@@ -482,7 +484,9 @@ def _try_dur(fn, text):
         r = _enc_any_duration(fn(text))
         proj.chk(r)
         return r
-    except Exception as e:  # noqa: BLE001
+    except (KeyboardInterrupt, SystemExit):
+        raise
+    except BaseException as e:  # noqa: BLE001
         return enc(e)
 
 
@@ -520,7 +524,9 @@ def _enc_parsed(v):
 def _try_any(fn, *a, **kw):
     try:
         return _enc_parsed(fn(*a, **kw))
-    except Exception as e:  # noqa: BLE001
+    except (KeyboardInterrupt, SystemExit):
+        raise
+    except BaseException as e:  # noqa: BLE001
         return enc(e)
 
 
@@ -971,8 +977,12 @@ def execute(opname, a, pre_objs):
     signal.setitimer(signal.ITIMER_VIRTUAL, OP_TIMEOUT)
     try:
         return OPS[opname](a, pre_objs)
+    except (KeyboardInterrupt, SystemExit, GeneratorExit):
+        raise
     except Exception as e:  # noqa: BLE001 - the exception IS the observation
         return e
+    except BaseException as e:  # noqa: BLE001 - a Rust panic arrives as a BaseException: observed like any other
+        return proj.ObservedBaseException(e)
     finally:
         signal.setitimer(signal.ITIMER_VIRTUAL, 0)
         signal.signal(signal.SIGVTALRM, old)
